@@ -188,6 +188,11 @@ func (g *gen) inner(depth int, allowHelpers bool) string {
 		return `{{$x := .G}}{{$x}}`
 	case n < 94:
 		return `{{.S}}`
+	case n < 97 && depth < 1:
+		// {{block}} defines a further member of the set in passing
+		name := fmt.Sprintf("B%d", len(g.blocks))
+		g.blocks = append(g.blocks, name)
+		return fmt.Sprintf(`{{block %q .}}%s{{end}}`, name, g.pick([]string{"{{.}}", "{{.F}}", "b{{.G}}", "blk"}))
 	default:
 		return "{{" + g.leafField() + "}}"
 	}
@@ -581,6 +586,7 @@ func benignData() *Val {
 
 func (g *gen) allNames() []string {
 	out := append([]string(nil), g.order...)
+	out = append(out, g.blocks...)
 	out = append(out, "root")
 	return out
 }
